@@ -210,3 +210,25 @@ Lemma client_loop_defer_is_indirect :
           ["socket.conn.Send"; "socket.conn.Receive"; "udp.conn.Send"; "udp.conn.Receive";
            "websocket.conn.Send"; "websocket.conn.Receive"] = true.
 Proof. vm_compute. reflexivity. Qed.
+
+(* ---------------------------------------------------------------- goroutine entries *)
+
+Lemma goroutine_entries_b :
+  forallb (fun g => implb (negb (unprotected g)) (entry_protected table (snd g))) known_goroutines = true /\
+  forallb (fun g => existsb (goroutine_eqb g) known_goroutines && negb (entry_protected table (snd g)))
+          unprotected_goroutines = true.
+Proof. vm_compute. split; reflexivity. Qed.
+
+Lemma goroutine_entries_partial : forall g, In g known_goroutines -> unprotected g = false ->
+  entry_protected table (snd g) = true.
+Proof.
+  intros g Hin Hu. destruct goroutine_entries_b as [H _]. rewrite forallb_forall in H.
+  specialize (H g Hin). rewrite Hu in H. exact H.
+Qed.
+
+Lemma goroutine_entries_refuted : forall g, In g unprotected_goroutines ->
+  existsb (goroutine_eqb g) known_goroutines = true /\ entry_protected table (snd g) = false.
+Proof.
+  intros g Hin. destruct goroutine_entries_b as [_ H]. rewrite forallb_forall in H.
+  specialize (H g Hin). apply andb_true_iff in H. destruct H as [H1 H2]. apply negb_true_iff in H2. split; assumption.
+Qed.
